@@ -49,6 +49,8 @@ structure Cfg where
   landingPage : Bool
   notFoundPage : Bool
   custom : List Pat        -- operator routes registered through Handle
+  rotated : Bool := false  -- SetAuthenticate was called again AFTER SetOAuthPkce: the new authenticator
+                           -- replaces the cookie chain (nothing of the old one may survive)
   deriving Repr
 
 /-- The ways an authenticator can refuse (`authenticate`'s error arms). -/
@@ -107,8 +109,23 @@ def outcome (cfg : Cfg) (req : Req) : Inner :=
   if cfg.proofGate && req.proof != .valid then .reject .failure
   else match req.inner with
     -- ProofAuthenticate and ChainAuthenticate both answer `nil, err`: the context is dropped
-    | .rejectCtx k p => if cfg.proofGate || cfg.pkce then .reject k else .rejectCtx k p
+    | .rejectCtx k p => if cfg.proofGate || (cfg.pkce && !cfg.rotated) then .reject k else .rejectCtx k p
     | i => i
+
+/-- `ChainAuthenticate(m₁ … mₙ)`: the first member that answers without error wins; an
+*AuthUnavailableError stops the chain; a ValueError RpcError ("not my credential") moves on; any other
+error (PermissionError, AuthFailure, other RpcErrors, plain errors) stops the chain and is the
+chain's answer; when every member declined the chain itself answers ValueError. The chain returns
+`nil, err`: a context that came with an error is dropped. -/
+def chainOutcome : List Inner → Inner
+  | [] => .reject .rpcValue
+  | .accept p :: _ => .accept p
+  | .acceptAnon :: _ => .acceptAnon
+  | .nilNil :: _ => .nilNil
+  | .reject .rpcValue :: rest => chainOutcome rest
+  | .rejectCtx .rpcValue _ :: rest => chainOutcome rest
+  | .reject k :: _ => .reject k
+  | .rejectCtx k _ :: _ => .reject k
 
 def Inner.isReject : Inner → Bool
   | .reject _ => true
